@@ -21,6 +21,9 @@ use crate::{vt, Args};
 pub enum Cause {
     PreStartErr,
     PreStartPanic,
+    /// a hand-written `fn pre_start(..) -> impl Future` that panics in its synchronous part, after side effects: the panic is not
+    /// inside the future the runtime guards, it unwinds through the spawn call into the caller (Send actors, non-async-trait shape)
+    PreStartSyncPanic,
     NameTaken,
     KillDuringStart,
     SupervisorStopped,
@@ -70,6 +73,9 @@ pub fn all_cases(tl: bool) -> Vec<Case> {
             causes.push(Cause::CutLate(n));
         }
     }
+    if !tl && !cfg!(feature = "alt") {
+        causes.push(Cause::PreStartSyncPanic);
+    }
     let mut v = vec![];
     for cause in causes {
         for effects in 0..64u32 {
@@ -79,6 +85,7 @@ pub fn all_cases(tl: bool) -> Vec<Case> {
                     (Cause::CutAfter(_) | Cause::CutLate(_), Api::SpawnInstant | Api::SpawnLinkedInstant) => continue,
                     (Cause::AbortStartTask(_), Api::Spawn | Api::SpawnLinked) => continue,
                     (Cause::SupervisorStopped, Api::Spawn | Api::SpawnInstant) => continue,
+                    (Cause::PreStartSyncPanic, _) if effects & E_CHILD != 0 => continue,
                     _ => {}
                 }
                 if tl && effects % 7 != 0 {
@@ -129,6 +136,28 @@ impl<F: Future> Future for CutAfter<F> {
                 Poll::Pending
             }
         }
+    }
+}
+
+/// Send actor whose `pre_start` is a plain function: it performs its side effects and panics before any future exists.
+#[cfg(not(feature = "alt"))]
+pub struct SyncPanic {
+    effects: Vec<Arc<dyn Fn(&ActorRef<PMsg>) + Send + Sync>>,
+}
+#[cfg(not(feature = "alt"))]
+impl ractor::Actor for SyncPanic {
+    type Msg = PMsg;
+    type State = PState;
+    type Arguments = ();
+    #[allow(unreachable_code, clippy::manual_async_fn)]
+    fn pre_start(&self, myself: ActorRef<PMsg>, _: ()) -> impl Future<Output = Result<PState, ractor::ActorProcessingErr>> + Send {
+        for e in &self.effects {
+            e(&myself);
+        }
+        if !self.effects.is_empty() || self.effects.is_empty() {
+            panic!("{PANIC_MARK} synchronous panic in pre_start");
+        }
+        async { Ok(PState { handled: 0 }) }
     }
 }
 
@@ -242,8 +271,53 @@ pub fn run_case(idx: u64, case: &Case, tl: Option<(&tokio::runtime::Runtime, rac
         let subj = Arc::new(subj);
         let supc = sup_ref.get_cell();
         // ---- the spawn call, per API
+        #[cfg(not(feature = "alt"))]
+        let sync_effects: Vec<Arc<dyn Fn(&ActorRef<PMsg>) + Send + Sync>> = {
+            let mut e: Vec<Arc<dyn Fn(&ActorRef<PMsg>) + Send + Sync>> = vec![];
+            let sh = shared.clone();
+            e.push(Arc::new(move |me: &ActorRef<PMsg>| *sh.leaked.lock().unwrap() = Some(me.get_cell())));
+            if case.effects & E_JOIN != 0 {
+                let (a, b) = (g1.clone(), g2.clone());
+                e.push(Arc::new(move |me: &ActorRef<PMsg>| {
+                    ractor::pg::join_scoped(a.0.clone(), a.1.clone(), vec![me.get_cell()]);
+                    ractor::pg::join_scoped(b.0.clone(), b.1.clone(), vec![me.get_cell()]);
+                }));
+            }
+            if case.effects & E_PGMON != 0 {
+                let (a, b) = (g1.clone(), g2.clone());
+                e.push(Arc::new(move |me: &ActorRef<PMsg>| {
+                    ractor::pg::monitor(b.1.clone(), me.get_cell());
+                    ractor::pg::monitor_scope(a.0.clone(), me.get_cell());
+                }));
+            }
+            #[cfg(feature = "cluster")]
+            if case.effects & E_PIDMON != 0 {
+                e.push(Arc::new(move |me: &ActorRef<PMsg>| ractor::registry::pid_registry::monitor(me.get_cell())));
+            }
+            if case.effects & E_LINK != 0 {
+                let o = other_ref.get_cell();
+                e.push(Arc::new(move |me: &ActorRef<PMsg>| me.get_cell().link(o.clone())));
+            }
+            if case.effects & E_SELFMSG != 0 {
+                let tr = trace.clone();
+                e.push(Arc::new(move |me: &ActorRef<PMsg>| {
+                    let _ = me.send_message(PMsg::Work(Work::new(&tr, u32::MAX, 1, vec![])));
+                }));
+            }
+            e
+        };
         let mk_plain = |linked: bool| -> Pin<Box<dyn Future<Output = SpawnOut> + Send>> {
             let (subj, supc, spawner) = (subj.clone(), supc.clone(), spawner.clone());
+            #[cfg(not(feature = "alt"))]
+            if case.cause == Cause::PreStartSyncPanic {
+                let (name, effects) = (subj.name.clone(), sync_effects.clone());
+                return Box::pin(async move {
+                    match linked {
+                        true => ractor::Actor::spawn_linked(name, SyncPanic { effects }, (), supc).await,
+                        false => ractor::Actor::spawn(name, SyncPanic { effects }, ()).await,
+                    }
+                });
+            }
             Box::pin(async move {
                 match spawner {
                     Some(sp) => spawn_tl_probe(&subj, if linked { Some(supc) } else { None }, sp).await,
@@ -280,12 +354,21 @@ pub fn run_case(idx: u64, case: &Case, tl: Option<(&tokio::runtime::Runtime, rac
                     Ok(Some(Ok(x))) => spawned_ok = Some(x),
                     Ok(Some(Err(e))) => spawn_err = Some(format!("{e}")),
                     Ok(None) => cut_happened = true,
+                    Err(e) if e.is_panic() && case.cause == Cause::PreStartSyncPanic => spawn_err = Some(format!("{PANIC_MARK} the spawn call unwound into the caller")),
                     Err(e) => v.push(("spawner-task".into(), format!("spawning task failed: {e:?}"))),
                 }
             }
             Api::SpawnInstant | Api::SpawnLinkedInstant => {
                 let linked = case.api == Api::SpawnLinkedInstant;
+                #[cfg(not(feature = "alt"))]
+                let sync_instant = case.cause == Cause::PreStartSyncPanic;
+                #[cfg(feature = "alt")]
+                let sync_instant = false;
                 let r = match (&spawner, linked) {
+                    #[cfg(not(feature = "alt"))]
+                    (None, true) if sync_instant => ractor::ActorRuntime::<SyncPanic>::spawn_linked_instant(subj.name.clone(), SyncPanic { effects: sync_effects.clone() }, (), supc.clone()),
+                    #[cfg(not(feature = "alt"))]
+                    (None, false) if sync_instant => ractor::ActorRuntime::<SyncPanic>::spawn_instant(subj.name.clone(), SyncPanic { effects: sync_effects.clone() }, ()),
                     (None, true) => ractor::ActorRuntime::<Probe>::spawn_linked_instant(subj.name.clone(), Probe { spec: subj.clone() }, (), supc.clone()),
                     (None, false) => ractor::ActorRuntime::<Probe>::spawn_instant(subj.name.clone(), Probe { spec: subj.clone() }, ()),
                     (Some(sp), true) => {
@@ -301,6 +384,11 @@ pub fn run_case(idx: u64, case: &Case, tl: Option<(&tokio::runtime::Runtime, rac
                     Err(e) => spawn_err = Some(format!("{e}")),
                     Ok((aref, outer)) => {
                         *shared.leaked.lock().unwrap() = Some(aref.get_cell());
+                        // linked from outside through the reference that exists at once, while the actor is still Unstarted
+                        // (its start task may then be cancelled before it is ever polled)
+                        if matches!(case.cause, Cause::AbortStartTask(_)) && case.effects & E_LINK != 0 {
+                            aref.get_cell().link(other_ref.get_cell());
+                        }
                         if let Cause::AbortStartTask(k) = case.cause {
                             c.register_abort(&name, outer.abort_handle());
                             c.set_abort_at(&name, k);
@@ -323,6 +411,7 @@ pub fn run_case(idx: u64, case: &Case, tl: Option<(&tokio::runtime::Runtime, rac
                             Ok(Ok(inner)) => spawned_ok = Some((aref, inner)),
                             Ok(Err(e)) => spawn_err = Some(format!("{e}")),
                             Err(e) if e.is_cancelled() => cut_happened = true,
+                            Err(e) if e.is_panic() && sync_instant => spawn_err = Some(format!("{PANIC_MARK} the start task unwound")),
                             Err(e) => v.push(("start-task".into(), format!("start task join error {e:?}"))),
                         }
                     }
@@ -349,7 +438,7 @@ pub fn run_case(idx: u64, case: &Case, tl: Option<(&tokio::runtime::Runtime, rac
                         bad("error-kind", format!("name clash reported as {spawn_err:?}"));
                     }
                 }
-                Cause::PreStartErr | Cause::PreStartPanic => {
+                Cause::PreStartErr | Cause::PreStartPanic | Cause::PreStartSyncPanic => {
                     if !spawn_err.as_deref().map(|e| e.contains(PANIC_MARK)).unwrap_or(false) {
                         bad("error-kind", format!("pre_start failure reported as {spawn_err:?}"));
                     }
@@ -711,6 +800,7 @@ pub fn run(args: &Args, rep: &mut Report) {
                 Cause::CutLate(_) => "cause_cut_late_n",
                 Cause::AbortStartTask(_) => "cause_abort_start_task_at_poll_k",
                 Cause::PreStartErr | Cause::PreStartPanic => "cause_pre_start_failure",
+                Cause::PreStartSyncPanic => "cause_pre_start_sync_panic",
                 Cause::NameTaken => "cause_name_taken",
                 Cause::KillDuringStart => "cause_kill_during_start",
                 Cause::SupervisorStopped => "cause_supervisor_stopped",
